@@ -98,9 +98,6 @@ func (p *prover) prove(g Lin, depth int, used []int) bool {
 			if len(ng.t) > 12 {
 				continue
 			}
-			if !bad && ng.C <= g.C*mu {
-				continue // no progress on the constant
-			}
 			if p.prove(ng, depth-1, append(used, fi)) {
 				return true
 			}
